@@ -362,6 +362,48 @@ def _names_failures(limit=None):
         shutil.rmtree(work, ignore_errors=True)
     return fails, n
 
+
+def _cheatpipe_failures():
+    """Bounded: which cheat pipe (the pipe that carries token debts) a nested redo uses, on the real binaries.  all.do records
+    the pipe behind its REDO_CHEATFDS read end (readlink /proc/self/fd/N: the kernel's pipe id) and runs `redo <flag> inner`;
+    inner.do records its own.  With -jN (N >= 1) the nested redo starts a jobserver of its own and must have a cheat pipe of
+    its own; without -j it joins the enclosing build and must use the same pipe.  -> (failures, n) or None"""
+    bindir = build_redo_bin()
+    if not bindir:
+        return None
+    env = {k: v for k, v in os.environ.items() if not k.startswith('REDO') and k != 'MAKEFLAGS'}
+    env['PATH'] = bindir + ':' + env.get('PATH', '')
+    work = tempfile.mkdtemp(prefix='redo-verif-cheat.', dir='/var/tmp')
+    fails, n = [], 0
+    rec = 'fd=${REDO_CHEATFDS%%,*}; readlink /proc/self/fd/$fd >"%s"\n'
+    try:
+        for outer_j in ('-j1', '-j3'):
+            for flag, own in (('', False), ('-j1', True), ('-j2', True), ('-j5', True)):
+                n += 1
+                proj = os.path.join(work, 'p%d' % n)
+                os.makedirs(proj)
+                open(os.path.join(proj, 'all.do'), 'w').write(rec % os.path.join(proj, 'outer.pipe') + 'redo %s inner\n' % flag)
+                open(os.path.join(proj, 'inner.do'), 'w').write(rec % os.path.join(proj, 'inner.pipe') + 'echo x\n')
+                r = subprocess.run(['redo', outer_j, 'all'], cwd=proj, env=env, capture_output=True, text=True, timeout=60)
+                hist = 'redo %s all; all.do runs `redo %s inner`' % (outer_j, flag)
+                try:
+                    o = open(os.path.join(proj, 'outer.pipe')).read().strip()
+                    i = open(os.path.join(proj, 'inner.pipe')).read().strip()
+                except OSError:
+                    continue
+                if r.returncode != 0 or not o.startswith('pipe:') or not i.startswith('pipe:'):
+                    continue
+                if own and o == i:
+                    fails.append(dict(input=hist, observed='the nested redo uses the enclosing build\'s cheat pipe %s' % o,
+                                      clause='a redo that is given its own -j makes a cheat pipe of its own (setup.own_jobserver_owns_its_debts)'))
+                if not own and o != i:
+                    fails.append(dict(input=hist, observed='the nested redo made its own cheat pipe (%s, enclosing build: %s)' % (i, o),
+                                      clause='a redo without -j joins the enclosing build: same token pipe, same cheat pipe (setup.inherits_or_creates)'))
+                shutil.rmtree(proj, ignore_errors=True)
+    finally:
+        shutil.rmtree(work, ignore_errors=True)
+    return fails, n
+
 # ---------------------------------------------------------------- interface used by run.py
 def search(prop, violations, tier, seed):
     """attach a concrete failing input to a reported violation, if a probe covers its function"""
@@ -422,6 +464,13 @@ def conformance(prop, unit_names, pins_changed, labels_props):
                 out.append(dict(oid='tokens/%s/%s' % (fn_, label), msg='contract clause fails on the real code for a concrete input (probe tokens-steps)',
                                 where=REPO + '/src/jobserver.rs:' + fn_, site=None, text=hits[0]['clause'], rendered=json.dumps(hits[:6], indent=1),
                                 inputs=[h['input'] for h in hits], fn=fn_, label=label, props=props))
+    if 'tokens' in unit_names and prop == 'C08':
+        r = _cheatpipe_failures()
+        if r and r[0]:
+            hits = r[0]
+            out.append(dict(oid='tokens/setup_cheat_fds/setup.own_jobserver_owns_its_debts', msg='clause fails on the real binaries for a concrete history (bounded probe cheatpipe, %d histories)' % r[1],
+                            where=REPO + '/src/jobserver.rs:setup', site=None, text=hits[0]['clause'], rendered=json.dumps(hits[:6], indent=1),
+                            inputs=[h['input'] for h in hits], fn='setup_cheat_fds', label='setup.own_jobserver_owns_its_debts', props=['C08']))
     for unit, probe_, fn_, where in PROBED:
         if unit in unit_names:
             f = _path_failures(probe_) or {}
